@@ -206,6 +206,10 @@ pub enum Ev {
     ChurnIds { dim: String, n: usize },
     /// `n` user keys issued in a row for the same policy (many registered identifiers).
     KeygenBurst { user: usize, pol: PolArg, n: usize },
+    /// Two freshly created library instances (`Covercrypt::default()`, seeded by the library from
+    /// the entropy source and not re-seeded by the harness) each issue a key on the master key
+    /// and encapsulate: identifiers, secrets and encapsulations must all be new.
+    FreshInstances { user: usize, enc: usize, kpol: PolArg, epol: PolArg },
     /// The master key comes back with one more tracer (higher tracing level).
     RaiseTracing,
     /// The attribute-id counter of the structure jumps forward to `to`; with `back = Some(b)`, to
@@ -265,6 +269,7 @@ impl Ev {
             Ev::ChurnIds { .. } => "ChurnIds",
             Ev::KeygenBurst { .. } => "KeygenBurst",
             Ev::RaiseTracing => "RaiseTracing",
+            Ev::FreshInstances { .. } => "FreshInstances",
             Ev::IdCounterJump { .. } => "IdCounterJump",
             Ev::PqBinding { .. } => "PqBinding",
             Ev::EncryptOtherThread { .. } => "EncryptOtherThread",
